@@ -196,6 +196,7 @@ class ChangeDistiller:
         self._unmatched_source_nodes = set(self._source_index) - set(pre_matched_nodes)
         self._unmatched_target_nodes = set(self._target_index) - set(pre_matched_nodes.values())
         self._bigram_histo_cache: dict[int, defaultdict[str, int]] = {}
+        self._pre_matched_pairs = set(pre_matched_nodes.items())
 
         matching_set = self._compute_matching_set() | set(pre_matched_nodes.items())
         return self._generate_edit_script(dict(matching_set), delta_only)
@@ -269,6 +270,8 @@ class ChangeDistiller:
     def _compute_matching_set(self) -> set[tuple[int, int]]:
         leaves_matching_set = self._compute_leaf_matching_set()
         matching_set = leaves_matching_set.copy()
+        # Leaves matched by the caller count towards the leaf similarity of their ancestors too
+        leaves_matching_set = leaves_matching_set | self._pre_matched_pairs
 
         ordered_unmatched_source_nodes = {
             id(n): None for n in self._source.bfs() if id(n) in self._unmatched_source_nodes
